@@ -80,9 +80,13 @@ func (s *State) clone() *State {
 	for k, v := range s.Heap {
 		n.Heap[k] = v
 	}
+	// only the active frame can change before the two copies are merged again (forks join inside
+	// one function activation; returns are merged by the activation's own runFunction), so the
+	// suspended caller frames are shared
 	n.Frames = make([]*Frame, len(s.Frames))
-	for i, f := range s.Frames {
-		n.Frames[i] = f.clone()
+	copy(n.Frames, s.Frames)
+	if k := len(s.Frames) - 1; k >= 0 {
+		n.Frames[k] = s.Frames[k].clone()
 	}
 	n.Open = make(map[*ssa.BasicBlock]*loopEntry, len(s.Open))
 	for k, v := range s.Open {
